@@ -132,6 +132,10 @@ def run(tier, work):
             asis = [c["asisacc"][str(k)] if isinstance(c["asisacc"], dict) else c["asisacc"][k] for k in range(7)]
             if not whole and nm >= 2 and acc == asis:
                 key = "Dev_ArgsSpecCutAtFirstParen"
+            elif c["c"]["rest"] and c["c"]["blk"]:
+                key = "Dev_BlockParamAfterRestTakesPositional"
+            elif c["c"]["o"] >= 1 and c["c"]["p"] >= 1:
+                key = "Dev_TrailingAfterOptionalArity"
             else:
                 key = "arity:MRB_ARGS:%s" % "|".join(c["macros"])
         else:
